@@ -164,6 +164,16 @@ func runOne(t *testing.T, sc *scen.Scenario, seed uint64, caseIdx int, tape *sim
 	emit(start)
 	current.Store(res)
 	heartbeat.Add(1)
+	if st := os.Getenv("VERIF_SELFTEST_STALL"); st != "" && st == fmt.Sprint(seed) {
+		// self-test of the orchestrator's handling of a stalled worker: stall
+		// once (marker file), or always when the value of ..._ALWAYS is set
+		marker := os.Getenv("VERIF_SELFTEST_STALL_MARKER")
+		if _, err := os.Stat(marker); err != nil || os.Getenv("VERIF_SELFTEST_STALL_ALWAYS") != "" {
+			os.WriteFile(marker, nil, 0o644)
+			fmt.Fprintln(os.Stderr, "WATCHDOG: no progress (self-test)")
+			os.Exit(4)
+		}
+	}
 	t0 := time.Now()
 	var run *simkit.Run
 	func() {
